@@ -66,6 +66,24 @@ COLORS = {
     "\001BOLD_WHITEm": "\033[1;37m",  # White
 }
 
+# numpy.timedelta64 units: months in a tick of the calendar units, and the length of a tick of
+# the others as (seconds, ticks in a second); a value without a unit counts seconds
+TIMEDELTA_MONTHS = {"Y": 12, "M": 1}
+TIMEDELTA_SECONDS = {
+    "W": (604800, 1),
+    "D": (86400, 1),
+    "h": (3600, 1),
+    "m": (60, 1),
+    "s": (1, 1),
+    "generic": (1, 1),
+    "ms": (1, 1_000),
+    "us": (1, 1_000_000),
+    "ns": (1, 1_000_000_000),
+    "ps": (1, 1_000_000_000_000),
+    "fs": (1, 1_000_000_000_000_000),
+    "as": (1, 1_000_000_000_000_000_000),
+}
+
 
 def colorizer(record, can_colorize=True, unescape=True):
     record = str(record)
@@ -162,7 +180,7 @@ def ascii_table(
     Returns:
         string (ASCII table)
     """
-    from math import isnan
+    from math import gcd, isnan
 
     import numpy
 
@@ -213,11 +231,18 @@ def ascii_table(
 
             if numpy.isnat(value):
                 return None
-            if numpy.datetime_data(value.dtype)[0] in ("Y", "M"):
+            # lengths are worked out from the tick count in Python integers: numpy's own unit
+            # conversions raise OverflowError once a count does not fit 64 bits in the finer unit
+            unit, step = numpy.datetime_data(value.dtype)[:2]
+            ticks = int(value.astype("int64"))
+            if unit in TIMEDELTA_MONTHS:
                 # calendar units have no fixed length in seconds
-                months = int(value.astype("timedelta64[M]").astype("int64"))
+                months = ticks * step * TIMEDELTA_MONTHS[unit]
                 return SimpleNamespace(months=months, days=0, nanoseconds=0)
-            seconds = value / numpy.timedelta64(1, "s")
+            length, per_second = TIMEDELTA_SECONDS[unit]
+            # the quotient numpy forms (both sides in their common unit), without its 64-bit limit
+            common = gcd(step * length, per_second)
+            seconds = float(ticks * (step * length // common)) / (per_second // common)
             return SimpleNamespace(
                 months=0, days=int(seconds // 86400), nanoseconds=(seconds % 86400) * 1e9
             )
